@@ -81,8 +81,15 @@ func (o *DriveOpts) runJob(ctx context.Context, id string, job *Job) jobResult {
 	ef := filepath.Join(dir, id+".stderr")
 	raw, _ := json.Marshal(job)
 	os.WriteFile(jf, raw, 0o644)
+	// worker cwd (truncation backups, wallet files) lives on tmpfs when there is one
 	wd := filepath.Join(o.Scratch, "cwd", id)
-	os.MkdirAll(wd, 0o755)
+	if st, err := os.Stat("/dev/shm"); err == nil && st.IsDir() {
+		wd = filepath.Join("/dev/shm", fmt.Sprintf("simcheck-%d", os.Getpid()), id)
+	}
+	if err := os.MkdirAll(wd, 0o755); err != nil {
+		wd = filepath.Join(o.Scratch, "cwd", id)
+		os.MkdirAll(wd, 0o755)
+	}
 	defer os.RemoveAll(wd)
 	to := o.JobTimeout
 	if to == 0 {
@@ -294,6 +301,12 @@ func Drive(o *DriveOpts) int {
 	if o.ChunkSize <= 0 {
 		o.ChunkSize = 25
 	}
+	if per := (o.Runs + o.Workers - 1) / o.Workers; per < o.ChunkSize {
+		o.ChunkSize = per
+		if o.ChunkSize < 1 {
+			o.ChunkSize = 1
+		}
+	}
 	var known KnownFile
 	if raw, err := os.ReadFile(o.Known); err == nil {
 		if err := json.Unmarshal(raw, &known); err != nil {
@@ -480,6 +493,7 @@ func Drive(o *DriveOpts) int {
 		fmt.Printf("%s\n  signature: %s\n  detail: %s\n  seen in %d runs, first seed %d\n", line, s, rf.Violation.Detail, si.count, si.first.Seed)
 		exit = 1
 	}
+	os.RemoveAll(filepath.Join("/dev/shm", fmt.Sprintf("simcheck-%d", os.Getpid())))
 	wall := time.Since(start).Seconds()
 	if err := writeEvidence(o, recs, sigs, other, knownSeen, nviol, infra, skipped, wall); err != nil {
 		fmt.Printf("INFRA: cannot write evidence: %v\n", err)
